@@ -77,32 +77,32 @@ theorem eof_last (ca cb : SideCfg) (evs : List Event) (s : Sys) (h : (Sys.init c
       (tl = [] ∨ tl = [.eof] ∨ tl = [.lost] ∨ tl = [.eof, .lost]) :=
   ((reachable_inv ca cb evs s h).g y).shape
 
-/-- **EOF if signalled — partial**: when the peer's send half is in state `eof` (EOF sent, channel not closed by
-    it), no EOF is left in flight, the reader is not paused and has not closed, `eof_received()` has been called.
-    The hypothesis "the sender did not close yet" cannot be dropped: see `eof_lost_when_close_overtakes`. -/
-theorem eof_delivered_partial (ca cb : SideCfg) (evs : List Event) (s : Sys) (h : (Sys.init ca cb).run evs = .ok s)
-    (x : Side) (hs : (s.ep x).sendState = .eof) (hfl : Msg.eof ∉ s.link x.other)
+/-- **EOF if sent** (unconditional since fix 024eb80): once the peer has put EOF on the wire and it is no longer in
+    flight, a reader that is not paused and has not closed HAS had `eof_received()` called — also when the peer's
+    CLOSE arrived while the EOF was still waiting behind undelivered data or behind a channel that had not
+    started reading (`_recv_eof_pending`). -/
+theorem eof_delivered_if_sent (ca cb : SideCfg) (evs : List Event) (s : Sys) (h : (Sys.init ca cb).run evs = .ok s)
+    (x : Side) (hs : (s.hist x).eofSent = true) (hfl : Msg.eof ∉ s.link x.other)
     (hp : (s.ep x.other).recvPaused = .no) (hopen : (s.hist x.other).appClosed = false) :
     Out.eof ∈ (s.hist x.other).dl := by
   have hinv := reachable_inv ca cb evs s h
-  have hlink := (hinv.dir x).link
-  have hs1 : sStage (s.ep x) = 1 := by simp [sStage, hs]
-  rw [hs1] at hlink
-  have hr : rStage (s.ep x.other) = 1 := by
-    have hle := LinkOK_le _ _ _ hlink
-    rcases Nat.eq_zero_or_pos (rStage (s.ep x.other)) with h0 | h0
-    · rw [h0] at hlink; exact absurd (LinkOK_zero_one _ hlink) hfl
-    · omega
-  have hst : (s.ep x.other).recvState = .eofPending ∨ (s.ep x.other).recvState = .eof := by
-    unfold rStage at hr
-    cases hrs : (s.ep x.other).recvState <;> simp_all
-  rcases hst with h1 | h1
-  · rcases (hinv.g x.other).eofWait h1 with h2 | h2
-    · exact absurd hp h2
-    · rw [hopen] at h2; cases h2
-  · exact (hinv.g x.other).eofDone h1
+  have hsi := run_sinv evs _ s (inv_init ca cb) (sinv_init ca cb) h
+  rcases hsi.sent x hs with h1 | h1 | h1 | h1
+  · exact absurd h1 hfl
+  · rcases h1 with h2 | ⟨h2, _⟩
+    · rcases (hinv.g x.other).eofWait h2 with h3 | h3
+      · exact absurd hp h3
+      · rw [hopen] at h3; cases h3
+    · exact absurd hp ((hinv.wf x.other).closeP h2)
+  · exact h1
+  · rw [hopen] at h1; cases h1
 
-/-! ### candidate defect F13: CLOSE overtakes a pending EOF -/
+/-- the writes to `_recv_eof_pending` the model's `recvEofPending` mirrors, as the translator finds them -/
+theorem eof_pending_flag_sites : Gen.C07.recvEofPendingSites =
+    ["__init__: self._recv_eof_pending = False", "_flush_recv_buf: self._recv_eof_pending = False",
+     "_process_close: self._recv_eof_pending = self._recv_state == 'eof_pending'"] := by decide
+
+/-! ### defect F13 (fixed by 024eb80): CLOSE used to overtake a pending EOF -/
 
 def f13Cfg : SideCfg × SideCfg :=
   ({ window := 64, pktsize := 32, readTypes := [1], writeTypes := [] },
@@ -113,25 +113,53 @@ def f13Run : List Event :=
   [.app .a .pause, .app .b (.write none [1, 2, 3]), .app .b .writeEof, .app .b .close,
    .deliver .a, .deliver .a, .deliver .a, .app .a .resume, .deliver .b]
 
-/-- **The full "EOF iff signalled" is FALSE of the code as modelled** (negation witness, replayed on the real
-    `SSHClientSession` callback API by the oracle of harness/props/C07.py): the sender signalled EOF, every byte was
-    delivered, nothing is in flight, the reader reads and has not closed — and `eof_received()` was never called
-    (`_process_close` overwrites `eof_pending` with `close_pending`). -/
-theorem eof_lost_when_close_overtakes :
-    ∃ s, (Sys.init f13Cfg.1 f13Cfg.2).run f13Run = .ok s ∧ (s.hist .b).eofSig = true ∧
+/-- **Witness for the code BEFORE fix 024eb80** (`Sys.runOld`: `_process_close` overwrites `'eof_pending'`): the
+    sender signalled and sent EOF, every byte was delivered, nothing is in flight, the reader reads and has not
+    closed — and `eof_received()` was never called. -/
+theorem eof_lost_when_close_overtakes_old :
+    ∃ s, (Sys.init f13Cfg.1 f13Cfg.2).runOld f13Run = .ok s ∧ (s.hist .b).eofSent = true ∧
       s.link .a = [] ∧ s.link .b = [] ∧ (s.ep .a).recvPaused = .no ∧ (s.hist .a).appClosed = false ∧
       tag (dataOuts (s.hist .a).dl) = tag (s.hist .b).wr ∧
       (s.hist .a).dl = [.data none [1, 2, 3], .lost] := by
   refine ⟨_, rfl, ?_⟩
   decide +kernel
 
-/-- the same without any `pause_reading()` by the application: the client channel is still in its `'starting'`
-    phase (the `_start_reading` task has not run) when DATA, EOF and CLOSE arrive in one burst -/
-theorem eof_lost_when_close_overtakes_starting :
-    ∃ s, (Sys.init { f13Cfg.1 with paused := .starting } f13Cfg.2).run
+/-- the same scenario on the code as it is now: data, then EOF, then `connection_lost` -/
+theorem eof_delivered_when_close_overtakes :
+    ∃ s, (Sys.init f13Cfg.1 f13Cfg.2).run f13Run = .ok s ∧
+      (s.hist .a).dl = [.data none [1, 2, 3], .eof, .lost] := by
+  refine ⟨_, rfl, ?_⟩
+  decide +kernel
+
+/-- BEFORE the fix, without any `pause_reading()` by the application: the client channel is still in its
+    `'starting'` phase when DATA, EOF and CLOSE arrive in one burst -/
+theorem eof_lost_when_close_overtakes_starting_old :
+    ∃ s, (Sys.init { f13Cfg.1 with paused := .starting } f13Cfg.2).runOld
         [.app .b (.write none [1, 2, 3]), .app .b .writeEof, .app .b .close,
          .deliver .a, .deliver .a, .deliver .a, .app .a .startReading, .deliver .b] = .ok s ∧
-      (s.hist .b).eofSig = true ∧ (s.hist .a).dl = [.data none [1, 2, 3], .lost] := by
+      (s.hist .b).eofSent = true ∧ (s.hist .a).dl = [.data none [1, 2, 3], .lost] := by
+  refine ⟨_, rfl, ?_⟩
+  decide +kernel
+
+/-- and now (also with no data at all: EOF and CLOSE while `'starting'`) -/
+theorem eof_delivered_when_close_overtakes_starting :
+    ∃ s, (Sys.init { f13Cfg.1 with paused := .starting } f13Cfg.2).run
+        [.app .b .writeEof, .app .b .close, .deliver .a, .deliver .a, .app .a .startReading, .deliver .b] = .ok s ∧
+      (s.hist .a).dl = [.eof, .lost] := by
+  refine ⟨_, rfl, ?_⟩
+  decide +kernel
+
+/-- **What is still missing on the SENDER side** (not touched by the three fixes; reported by the oracle as
+    `eof-not-sent:close-overrides-pending-eof`): `write_eof()` followed by `close()` while data is still waiting
+    for window: `close()` replaces `'eof_pending'` by `'close_pending'`, the EOF message is never sent, and the
+    receiver gets all the data and `connection_lost` but no `eof_received()`.  Hence `eof_delivered_if_sent`
+    speaks of EOF *sent* (`eofSent`), not of `write_eof()` *called* (`eofSig`). -/
+theorem eof_not_sent_when_close_overrides :
+    ∃ s, (Sys.init { f13Cfg.1 with window := 4 } f13Cfg.2).run
+        [.app .b (.write none [1, 2, 3, 4, 5, 6, 7, 8]), .app .b .writeEof, .app .b .close,
+         .deliver .a, .deliver .b, .deliver .a, .deliver .a, .deliver .b, .deliver .b] = .ok s ∧
+      (s.hist .b).eofSig = true ∧ (s.hist .b).eofSent = false ∧ s.link .a = [] ∧ s.link .b = [] ∧
+      (s.hist .a).dl = [.data none [1, 2, 3, 4], .data none [5, 6, 7, 8], .lost] := by
   refine ⟨_, rfl, ?_⟩
   decide +kernel
 
